@@ -106,6 +106,13 @@ func init() {
 		technique: "deterministic simulation: seeded interleavings at I/O and inserted yield points, solo-run isolation oracle, vector-clock happens-before race detection, porcupine linearizability of the call history",
 		stubs: []string{"sync.Once / sync.Mutex in generated code replaced by simulator-aware equivalents (scratch copy only)"},
 	}
+	props["C15"] = &propCfg{
+		id: "C15", level: "exploration", design: "DESIGN.md §4 C15", custom: c15Check, customReplay: c15Replay,
+		rule: "per seeded two-file world and per plugin configuration (go-http, go-http+mock, go-client, openapi yaml/json, ts-client, ts-server): canonical run of the freshly built plugin vs variants = plain reruns under GOMAXPROCS 1/16, the seamed build (every range-over-map in /repo/internal and /repo/cmd iterating in a seed-derived permutation; seed 0 = sorted) under K map seeds, simulated clock values, permuted file_to_generate, permuted proto_file, single-file vs multi-file invocation, other file absent, unrelated extra file, parameter spellings, mock on/off; distinct_nontrivial counts distinct (world, plugin configuration, variant kind) triples whose outputs were compared byte for byte",
+		technique: "deterministic simulation of the generators' only nondeterminism sources: seeded map-iteration order and clock via a source-level seam in a scratch build, plus request-shape perturbation; byte comparison with the canonical run",
+		real:      []string{"all five plugin binaries, original and seamed builds of the same tree"},
+		stubs:     []string{"map iteration order and time.Now inside /repo/internal and /repo/cmd (seamed); third-party libraries unseamed"},
+	}
 }
 
 func getProp(id string) (*propCfg, error) {
